@@ -3,6 +3,7 @@
   Property theorems only (argv shape and environment precedence; process-group leadership, the null
   stdin and the working directory are OS effects observed end-to-end).
 -/
+import NextestModel.Gen.Tables
 import NextestModel.Model.Command
 import NextestModel.Lemmas.Shell
 namespace NextestModel.C15
@@ -96,5 +97,11 @@ example : finalArgv (some "cargo-nextest".toList) "/t/bin".toList
     ["--exact".toList, "it's a \"test\" $x\n#y".toList, "--nocapture".toList, [], "'".toList] =
     some ["/t/bin".toList, "--exact".toList, "it's a \"test\" $x\n#y".toList, "--nocapture".toList, [], "'".toList] := by
   decide
+
+/-- **how an attempt's command is prepared** (executor.rs `run_test_inner` and unix.rs, as read on this run): `make_command` with the
+    test's extra arguments, then the attempt number and `NEXTEST_RUN_ID` (the run's one id), the slot variables, standard input
+    from the null device, the setup scripts' variables, and `process_group(0)` — the child is the leader of its own group; a fresh
+    command per attempt -/
+theorem spawn_setup_is_as_stated : ∀ r ∈ Gen.spawnSetup, r.2 = true := by decide
 
 end NextestModel.C15
